@@ -74,6 +74,7 @@ type Contract struct {
 	Safe     bool
 	Pure     bool
 	Modifies []string
+	Preserves []string
 	Assumed  bool
 	Lemma    bool
 	NonNil   bool // externals: result is non-nil
@@ -93,7 +94,7 @@ type ContractFile struct {
 	Ghosts    map[string]string
 }
 
-var kwRe = regexp.MustCompile(`^(func|props|mode|requires|ghostinit|ensures_thorough|ensures|safe|pure|modifies|assumed|lemma|nonnil|loop|invariant|unroll|decreases|site|assert|assume|ghostset|ghostdecl|spec|note|end)\b`)
+var kwRe = regexp.MustCompile(`^(func|props|mode|requires|ghostinit|ensures_thorough|ensures|safe|pure|modifies|preserves|assumed|lemma|nonnil|loop|invariant|unroll|decreases|site|assert|assume|ghostset|ghostdecl|spec|note|end)\b`)
 var ghostInitRe = regexp.MustCompile(`^ghost\([A-Za-z0-9_.]+,\s*"[A-Za-z0-9_]+"\)\s*==\s*-?[0-9]+$`)
 var ghostNameRe = regexp.MustCompile(`ghost(?:at)?\((?:[^"]*)"([A-Za-z0-9_]+)"\)`)
 var labelRe = regexp.MustCompile(`^\[([A-Za-z0-9_.\-]+)\]\s*`)
@@ -241,6 +242,14 @@ func ParseContractFile(path, pkgPath string) (*ContractFile, error) {
 			for _, m := range splitTopLevel(rest) {
 				if m = strings.TrimSpace(m); m != "" {
 					cur.Modifies = append(cur.Modifies, m)
+				}
+			}
+		case "preserves":
+			// frame by exclusion (assumed contracts only): anything may change
+			// except the listed heap components
+			for _, m := range splitTopLevel(rest) {
+				if m = strings.TrimSpace(m); m != "" {
+					cur.Preserves = append(cur.Preserves, m)
 				}
 			}
 		case "loop":
